@@ -128,6 +128,21 @@ class Gen:
                     bgc = rnd.choice([(20, 20, 20), (34, 34, 34)]) if refs.wcag_lum(self.var_user_bg[a]) > 0.3 else rnd.choice([(255, 255, 255), (245, 245, 240)])
                 body.append({"t": "rule", "sel": ".al%d" % self.n, "text": ("var", "--alias"), "bg": ("lit", pairs.hexs(bgc)),
                              "extras": [], "imp": False, "dup": False, "comment": False})
+        if rnd.random() < 0.3:
+            names2 = [n for n in self.var_defs if n.startswith("--c")]
+            tgt = rnd.choice(names2) if names2 else None
+            self.n += 1
+            if tgt and rnd.random() < 0.5:
+                # defined through the fallback of an undefined property (nested var() in the fallback)
+                self.var_defs["--viafb"] = ("varfb", "--undefined-zz", f"var({tgt})")
+                body.append({"t": "rule", "sel": ".vf%d" % self.n, "text": ("var", "--viafb"), "bg": None,
+                             "extras": [], "imp": False, "dup": False, "comment": False})
+            else:
+                # a cycle closed through a fallback: unresolvable, the rule needs attention and stays as it is
+                self.var_defs["--k1"] = ("varfb", "--user-ink", "var(--k2)")
+                self.var_defs["--k2"] = ("var", "--k1")
+                body.append({"t": "rule", "sel": ".cy%d" % self.n, "text": ("var", rnd.choice(["--k2", "--k1"])), "bg": None,
+                             "extras": [], "imp": False, "dup": False, "comment": False})
         rootsel = rnd.choice([":root", "html"])
         root = {"t": "vars", "sel": rootsel, "defs": list(self.var_defs.items()), "color": None}
         if rnd.random() < self.f_known * 0.5:      # F4 class: literal color directly in the :root/html rule
@@ -317,6 +332,9 @@ def resolve(e, tbl, seen=()):
         m = re.fullmatch(r"var\((--[\w-]+)\)", e[1])
         if m:
             return resolve(("var", m.group(1)), tbl, seen)
+        m = re.fullmatch(r"var\((--[\w-]+)\s*,\s*(.*)\)", e[1], re.S)
+        if m:
+            return resolve(("varfb", m.group(1), m.group(2)), tbl, seen)
         return e[1]
     name = e[1]
     fb = ("lit", e[2]) if e[0] == "varfb" else None
@@ -593,3 +611,29 @@ def effective_colours(css_text, prop="color"):
 
     walk(sheet)
     return out
+
+
+def positional_sheet(k1, k2, k3, minified, rnd):
+    """k1 filler rules, an @media block with k2 fillers and then a target rule, k3 fillers, then an html rule that declares a
+    failing colour directly (plus a custom property used by the nested target); positions matter to index-based bookkeeping"""
+    def filler(n):
+        return {"t": "rule", "sel": ".f%d" % n, "text": ("lit", rnd.choice(["#000000", "#111111", "#222222"])), "bg": ("lit", "#ffffff"),
+                "extras": ["margin: 0"], "imp": False, "dup": False, "comment": False}
+    n = 0
+    nodes = []
+    for _ in range(k1):
+        n += 1; nodes.append(filler(n))
+    kids = []
+    for _ in range(k2):
+        n += 1; kids.append(filler(n))
+    kids.append({"t": "rule", "sel": ".note", "text": ("lit", "#777777"), "bg": None, "extras": ["margin: 1em", "content: \"x\"", "border: 1px solid #ccc"],
+                 "imp": False, "dup": False, "comment": False})
+    nodes.append({"t": "at", "kw": rnd.choice(["media", "supports"]), "prelude": "print" , "kids": kids})
+    for _ in range(k3):
+        n += 1; nodes.append(filler(n))
+    nodes.append({"t": "vars", "sel": rnd.choice(["html", ":root"]), "defs": [("--c0", ("lit", "#808080"))], "color": ("lit", "#888888")})
+    css = render(nodes, rnd)
+    if minified:
+        css = re.sub(r"\s*\n\s*", "", css)
+        css = re.sub(r"\s*([{};])\s*", r"\1", css)
+    return nodes, css
